@@ -147,6 +147,10 @@ class MementoFunction(MementoFunctionBase):
     def hash_rules(self) -> List[HashRule]:
         """Ordered list of hash rules from which the hash was computed"""
         self._update_dependencies()
+        if self.explicit_version is not None:
+            # The version is static, so the rules were not needed to compute it, but the
+            # dependency graph is still derived from them.
+            self._recompute_version()
         return self._hash_rules
 
     explicit_version = None  # type: Optional[str]
